@@ -165,7 +165,16 @@ def run(ctx):
     st = canon(I.call_function(sm, []))
     snts = [a for a in alternatives(st) if a[0] == "nt"]
     ctx.require(snts, "swap_memory(): not an sswap record")
-    sw = dict(zip(snts[0][2], snts[0][3]))
+    # several return statements (early return when /proc/vmstat is unreadable):
+    # each field is the join of what the records carry
+    from ..core.absint import phi as _phi
+    sw = {}
+    for i_, fld_ in enumerate(snts[0][2]):
+        vals_ = []
+        for r_ in snts:
+            if r_[2] == snts[0][2] and r_[3][i_] not in vals_:
+                vals_.append(r_[3][i_])
+        sw[fld_] = vals_[0] if len(vals_) == 1 else _phi(*vals_)
     ST, SF = atomic(sw["total"]), atomic(sw["free"])
     try:
         su = to_rat(sw["used"])
@@ -257,21 +266,29 @@ def run(ctx):
                   "active": "active", "inactive": "inactive", "slab": None}
     got_names = {}
     lst = None
-    for tr in ast.walk(vm.node):
-        if not isinstance(tr, ast.Try):
-            continue
-        for h in tr.handlers:
-            if not handler_catches(h, ["KeyError"]):
-                continue
-            zero = [s for s in h.body if isinstance(s, ast.Assign)
-                    and isinstance(s.value, ast.Constant) and s.value.value == 0]
-            app = [c for s in h.body for c in calls_in(s)
-                   if isinstance(c.func, ast.Attribute) and c.func.attr == "append"]
-            for z in zero:
-                got_names[dotted(z.targets[0])] = app[0].args[0].value if app and \
-                    isinstance(app[0].args[0], ast.Constant) else None
-                if app:
-                    lst = dotted(app[0].func.value)
+    # a block (handler body, else branch, ...) that sets a metric to 0 and, in the
+    # same block, records its documented name
+    def blocks(node):
+        for n_ in ast.walk(node):
+            for f_ in ("body", "orelse", "finalbody"):
+                b_ = getattr(n_, f_, None)
+                if isinstance(b_, list) and b_ and isinstance(b_[0], ast.stmt):
+                    yield b_
+            if isinstance(n_, ast.ExceptHandler):
+                yield n_.body
+    for blk in blocks(vm.node):
+        zero = [s_ for s_ in blk if isinstance(s_, ast.Assign)
+                and isinstance(s_.value, ast.Constant) and s_.value.value == 0
+                and not isinstance(s_.value.value, bool) and isinstance(s_.targets[0], ast.Name)]
+        app = [c for s_ in blk if isinstance(s_, ast.Expr) for c in calls_in(s_)
+               if isinstance(c.func, ast.Attribute) and c.func.attr == "append"]
+        if blk is vm.node.body:
+            continue            # top-level initialisations are not fallbacks
+        for z in zero:
+            got_names[dotted(z.targets[0])] = app[0].args[0].value if app and app[0].args and \
+                isinstance(app[0].args[0], ast.Constant) else None
+            if app:
+                lst = dotted(app[0].func.value)
     # `x = mems.get(KEY, 0)`: zero without a report (acceptable only where the
     # documentation asks for silence)
     for st_ in ast.walk(vm.node):
